@@ -7,5 +7,8 @@ CONSTANTS
   PubLens = {0, 7, 8, 9, 10, 12, 13, 14, 24, 28, 40}
   PubHLs = {0, 7, 8, 9, 10, 12, 13, 14, 16, 255}
   MaxN = 0
+  MaxInt = 4
+  MaxShape = 3
+  IntAnywhere = TRUE
   TableOn = FALSE
 CHECK_DEADLOCK FALSE
